@@ -43,6 +43,7 @@ func extraText(e MExtra) string {
 	}
 	return t
 }
+
 type MountCase struct {
 	ID       int      `json:"id"`
 	Patterns []MPat   `json:"patterns"`
